@@ -32,7 +32,7 @@ func c04(r *core.Run) {
 	}
 	// random sequential scripts: once-heavy, handlers that unsubscribe themselves or others, cancelled contexts
 	rnd := rand.New(rand.NewPCG(uint64(r.Seed), 404))
-	g := busdrv.GenOpts{Procs: 1, OpsPerProc: [2]int{10, 40}, Types: 2, Async: 0.25, Once: 0.8, Filt: 0.35, Body: 0.4,
+	g := busdrv.GenOpts{Procs: 1, OpsPerProc: [2]int{10, 40}, Types: 2, Async: 0.25, Once: 0.8, Filt: 0.35, Body: 0.4, CtxBody: 0.3,
 		Kinds: []string{"sub", "sub", "sub", "unsub", "count", "has", "pub", "pub", "pub", "pub", "cancel", "wait"},
 		Ctxs:  []string{"c1", "c2"}, Cfgs: []busdrv.Cfg{plainCfg}}
 	var scripts []busdrv.Script
